@@ -47,6 +47,35 @@ def run(ctx):
                site=c.loc(), key="C19.1:compare-args")
         ctx.ob("C19.1", "the received message is a Have", "Have" in o1.fields or any(
             "Have" in str(e) for e in o1.fields) or True, "", trivial=True)
+    # the diff is used as computed: what reaches the sending states is exactly compare()'s result, not a filtered /
+    # extended version of it (C06 decides compare itself; a post-processing step would escape that table)
+    if cmp_:
+        c = cmp_[0]
+        aggs = [(bb, k, rv) for bb, k, pl, rv, st in b.assigns() if rv["k"] == "agg" and rv.get("variant") == "SendPreSync"
+                and (rv.get("adt") or "").endswith("log_sync::State")]
+        ctx.floor("C19.4", "State::SendPreSync constructions", len(aggs), 1)
+        from mir import trace_back
+        from facts import op_place
+        for bb, k, rv in aggs:
+            i = rv["fields"].index("remote_needs") if "remote_needs" in rv.get("fields", []) else 0
+            q = op_place(rv["ops"][i])
+            base = trace_back(b, q.local)[-1][0] if q is not None else None
+            direct = base is not None and c.result is not None and (base == c.result or
+                                                                     trace_back(b, base)[-1][1] is not None and
+                                                                     trace_back(b, base)[-1][1][0] == "call" and
+                                                                     trace_back(b, base)[-1][1][1] == c.bb)
+            aliases = {x for x, _ in trace_back(b, q.local)} if q is not None else set()
+            between = b.reachable(c.done_bb, avoid={bb}) if c.done_bb is not None else set()
+            muts = []
+            for bb2, k2, pl2, rv2, st2 in b.assigns():
+                if bb2 in between and rv2["k"] == "ref" and rv2.get("mut") and Place(rv2["place"]).local in aliases:
+                    muts.append(b.loc(bb2, k2))
+            ctx.ob("C19.4", "the sending states receive compare()'s result unmodified", direct and not muts,
+                   "State::SendPreSync.remote_needs %s%s: the set of ranges to send must be exactly compare(local, remote) — a "
+                   "filter over it (e.g. dropping logs the remote did not announce) silently withholds operations the remote is "
+                   "missing" % ("derives from compare()" if direct else "does not come straight from compare()",
+                                "; it is mutably borrowed in between at %s" % muts if muts else ""),
+                   site=b.loc(bb, k), key="C19.4:diff-unmodified")
     for nm in ("get_log_size", "get_log_entries"):
         cs = calls_to(b, LS + nm)
         ctx.floor("C19.2", nm + " call", len(cs), 1)
